@@ -239,6 +239,126 @@ func main() {
 	sort.Strings(callers)
 	sort.Strings(touchers)
 
+	// --- hardening facts -------------------------------------------------------------------------
+	// (a) activation heights of the proposals on the pool's path in the mainnet and robin schedules
+	schedules := map[string][]string{}
+	if f, err := parser.ParseFile(fset, filepath.Join(repo, "src/common/version.go"), nil, 0); err == nil {
+		ast.Inspect(f, func(n ast.Node) bool {
+			vs, ok := n.(*ast.ValueSpec)
+			if !ok || len(vs.Names) != 1 || len(vs.Values) != 1 {
+				return true
+			}
+			name := vs.Names[0].Name
+			if name != "mainNetChainConfig" && name != "robinChainConfig" {
+				return true
+			}
+			cl, ok := vs.Values[0].(*ast.CompositeLit)
+			if !ok {
+				return true
+			}
+			vals := map[string]string{}
+			for _, e := range cl.Elts {
+				if kv, ok := e.(*ast.KeyValueExpr); ok {
+					if k, ok := kv.Key.(*ast.Ident); ok {
+						if bl, ok := kv.Value.(*ast.BasicLit); ok {
+							vals[k.Name] = bl.Value
+						}
+					}
+				}
+			}
+			for _, k := range []string{"Proposal016Block", "Proposal018Block", "Proposal021Block", "Proposal023Block"} {
+				v, ok := vals[k]
+				if !ok {
+					v = "0"
+				}
+				schedules[name] = append(schedules[name], v)
+			}
+			return true
+		})
+	}
+	// (b) writes to package-level variables and (c) store calls whose error result is dropped, in the tracked files
+	var pkgWrites, dropped []string
+	for _, rel := range []string{"src/service/transaction_pool.go", "src/service/simple_container.go", "src/middleware/types/transaction.go"} {
+		dir := filepath.Dir(filepath.Join(repo, rel))
+		pkgVars := map[string]bool{}
+		ents, _ := os.ReadDir(dir)
+		for _, e := range ents {
+			if !strings.HasSuffix(e.Name(), ".go") || strings.HasSuffix(e.Name(), "_test.go") {
+				continue
+			}
+			if f, err := parser.ParseFile(fset, filepath.Join(dir, e.Name()), nil, 0); err == nil {
+				for _, d := range f.Decls {
+					if gd, ok := d.(*ast.GenDecl); ok && gd.Tok == token.VAR {
+						for _, sp := range gd.Specs {
+							for _, n := range sp.(*ast.ValueSpec).Names {
+								if n.Name != "_" {
+									pkgVars[n.Name] = true
+								}
+							}
+						}
+					}
+				}
+			}
+		}
+		f, err := parser.ParseFile(fset, filepath.Join(repo, rel), nil, 0)
+		if err != nil {
+			continue
+		}
+		imps := fileImports(f)
+		for _, d := range f.Decls {
+			fd, ok := d.(*ast.FuncDecl)
+			if !ok || fd.Body == nil {
+				continue
+			}
+			name := funcName(fd)
+			locals := map[string]bool{}
+			if fd.Recv != nil {
+				for _, fl := range fd.Recv.List {
+					for _, n := range fl.Names {
+						locals[n.Name] = true
+					}
+				}
+			}
+			if fd.Type.Params != nil {
+				for _, fl := range fd.Type.Params.List {
+					for _, n := range fl.Names {
+						locals[n.Name] = true
+					}
+				}
+			}
+			ast.Inspect(fd.Body, func(n ast.Node) bool {
+				switch x := n.(type) {
+				case *ast.AssignStmt:
+					for _, l := range x.Lhs {
+						root := selPath(l)[0]
+						if x.Tok == token.DEFINE {
+							locals[root] = true
+							continue
+						}
+						if pkgVars[root] && !locals[root] {
+							pkgWrites = append(pkgWrites, rel+":"+name+":"+root)
+						}
+					}
+				case *ast.IncDecStmt:
+					root := selPath(x.X)[0]
+					if pkgVars[root] && !locals[root] {
+						pkgWrites = append(pkgWrites, rel+":"+name+":"+root)
+					}
+				case *ast.ExprStmt:
+					if c, ok := x.X.(*ast.CallExpr); ok {
+						cn := callName(c, imps)
+						switch cn {
+						case "batch.Write", "batch.Put", "executed.Delete", "executed.Put":
+							dropped = append(dropped, name+":"+cn)
+						}
+					}
+				}
+				return true
+			})
+		}
+	}
+	sort.Strings(pkgWrites)
+
 	var sb strings.Builder
 	sb.WriteString("/- GENERATED by gen/cmd/c17facts from the go-rangers working tree; do not edit. -/\n")
 	sb.WriteString("namespace Rangers.Generated.PoolFacts\n\n")
@@ -277,6 +397,18 @@ func main() {
 	list("interfaceCallers", callers)
 	sb.WriteString("/-- functions of package service that touch the pool's fields (file:function:field) -/\n")
 	list("fieldUsers", touchers)
+	sb.WriteString("/-- activation heights of proposals 016, 018, 021, 023 in the mainnet and robin schedules -/\n")
+	for _, k := range []string{"mainNetChainConfig", "robinChainConfig"} {
+		v := schedules[k]
+		if len(v) != 4 {
+			v = []string{"0", "0", "0", "0"}
+		}
+		sb.WriteString(fmt.Sprintf("def %sSchedule : List Nat := [%s]\n", strings.TrimSuffix(k, "ChainConfig"), strings.Join(v, ", ")))
+	}
+	sb.WriteString("\n/-- assignments to package-level variables inside the tracked files (file:function:variable) -/\n")
+	list("packageWrites", pkgWrites)
+	sb.WriteString("/-- store calls whose error result is dropped (function:call), in source order -/\n")
+	list("droppedErrors", dropped)
 	sb.WriteString("end Rangers.Generated.PoolFacts\n")
 	fmt.Print(sb.String())
 }
